@@ -88,6 +88,11 @@ func (m *MdatBox) Size() uint64 {
 
 // AddSampleData -  a sample data to an mdat box
 func (m *MdatBox) AddSampleData(s []byte) {
+	if len(m.DataParts) > 0 {
+		// The data is kept as parts (and only the parts are written): add the sample as one more part
+		m.DataParts = append(m.DataParts, s)
+		return
+	}
 	m.Data = append(m.Data, s...)
 }
 
